@@ -159,4 +159,14 @@ def lattice (Lx Ly : Nat) : Lattice where
   logX := logX Lx Ly
   logZ := logZ Lx Ly
 
+/-! ### the explicit independent family of `n − k = 18·L² − 4` generators of the rank clause (square
+sizes; `C01Color666ToricCode.rank_family`, proved in `Proofs/LatColor666ToricCodeRank.lean`); printed by
+the driver op `rankfamily` and evaluated on the implementation's parity-check matrix on every run -/
+
+/-- all faces but `(2, 2)` and `(5, 4)` (adjacent, of two different colours) -/
+def selFaces (L : Nat) : List Coord := (faces L L).filter fun c => c != [2, 2] && c != [5, 4]
+
+/-- the selected stabilizer locations: the X and the Z generator of every selected face -/
+def sel (L : Nat) : List Coord := both (selFaces L)
+
 end Panqec.Color666ToricCode
